@@ -27,6 +27,9 @@ pub const EXTRA: &[(&str, &str)] = &[
     ("poseidon_pedersen", "fn f(a: felt252, b: felt252) -> felt252 { let h = core::pedersen::pedersen(a, b); let (x, _, _) = core::poseidon::hades_permutation(h, a, b); x }\n"),
     ("bitwise", "fn f(a: u32, b: u32) -> u32 { (a & b) | (a ^ 0xff) }\n"),
     ("closure", "fn f(a: u8, b: u8) -> u8 { let g = |x: u8| x / 2 + b / 2; g(a) / 2 + g(b) / 2 }\n"),
+    ("circuit_inverse_loop", "use core::circuit::{AddInputResultTrait, CircuitElement, CircuitInput, CircuitInputs, CircuitModulus, EvalCircuitTrait, circuit_inverse, circuit_mul, circuit_add, u96};\nfn f(values: Array<u96>) -> felt252 { let mut count = 0; for v in values { let in0 = CircuitElement::<CircuitInput<0>> {}; let inv = circuit_inverse(in0); let modulus = TryInto::<_, CircuitModulus>::try_into([7, 0, 0, 0]).unwrap(); match (inv,).new_inputs().next([v, 0, 0, 0]).done().eval(modulus) { Ok(_) => { count += 1; }, Err(_) => {}, } } count }\n"),
+    ("circuit_mixed", "use core::circuit::{AddInputResultTrait, CircuitElement, CircuitInput, CircuitInputs, CircuitModulus, EvalCircuitTrait, CircuitOutputsTrait, circuit_inverse, circuit_mul, circuit_add, circuit_sub, u96, u384};\nfn f(a: u96, b: u96) -> felt252 { let in0 = CircuitElement::<CircuitInput<0>> {}; let in1 = CircuitElement::<CircuitInput<1>> {}; let s = circuit_add(in0, in1); let m = circuit_mul(s, in1); let d = circuit_sub(m, in0); let i = circuit_inverse(d); let modulus = TryInto::<_, CircuitModulus>::try_into([11, 0, 0, 0]).unwrap(); match (i, m).new_inputs().next([a, 0, 0, 0]).next([b, 0, 0, 0]).done().eval(modulus) { Ok(outs) => { let r: u384 = outs.get_output(i); r.limb0.into() }, Err(_) => 99, } }\n"),
+    ("circuit_inverse_first", "use core::circuit::{AddInputResultTrait, CircuitElement, CircuitInput, CircuitInputs, CircuitModulus, EvalCircuitTrait, circuit_inverse, circuit_mul, u96};\nfn f(a: u96, b: u96) -> felt252 { let in0 = CircuitElement::<CircuitInput<0>> {}; let in1 = CircuitElement::<CircuitInput<1>> {}; let i = circuit_inverse(in0); let m = circuit_mul(i, in1); let m2 = circuit_mul(m, m); let modulus = TryInto::<_, CircuitModulus>::try_into([6, 0, 0, 0]).unwrap(); let mut t = 0; let mut k: u8 = 0; while k != 2 { k += 1; match (m2,).new_inputs().next([a, 0, 0, 0]).next([b, 0, 0, 0]).done().eval(modulus) { Ok(_) => { t += 10; }, Err(_) => { t += 1; }, } } t }\n"),
     ("while_let", "fn f(a: u8, b: u8) -> u16 { let mut arr = array![a, b, 9]; let mut t: u16 = 0; while let Some(x) = arr.pop_front() { t += x.into(); } t }\n"),
 ];
 
